@@ -28,7 +28,7 @@ Definition op_ok (s : state) (i : nat) (x : node) : Prop :=
       ((n_cs x = InPre /\ n_ver x + 1 = r_ver m /\ r_val m = n_val x) \/
        (n_cs x = AcceptedNew /\ r_ver m <= n_ver x))
   | OpAbort a ov acks fp =>
-      In a (g_sent s) /\ r_type a = RAbort /\ r_from a = i /\ n_preok x = false
+      In a (g_sent s) /\ r_type a = RAbort /\ r_from a = i /\ n_preok x = false /\ r_time a = n_clock x
   | OpCommit c ov acks =>
       In c (g_sent s) /\ r_type c = RCommit /\ r_from c = i /\ r_ver c = ov + 1 /\ n_preok x = true /\
       ((n_ver x = ov /\ n_cs x = HasPre /\ n_tpc x = false /\ r_val c = n_val x) \/ ov < n_ver x)
@@ -45,6 +45,8 @@ Record Inv (s : state) : Prop := mkInv {
   IA4 : forall m, In m (g_won s) -> In m (g_sent s) /\ r_type m = RPre;
   IA5 : forall p x, In p (g_replies s) -> p_real p = false -> get s (r_from (p_req p)) = Some x ->
         (r_time (p_req p) < n_clock x)%Z;
+  IA6 : forall p, In p (g_replies s) -> p_acc p = false ->
+        r_type (p_req p) = RPre \/ r_ver (p_req p) <= p_ver p;
   (* proposer side *)
   IB1 : forall i x, get s i = Some x -> op_ok s i x;
   IB5 : forall i x, get s i = Some x -> n_preok x = true -> n_op x = OpNone ->
@@ -260,3 +262,27 @@ Proof.
   - unfold promise_ok in Hpo.
     destruct Hc as [Hc|[Hc|(c1 & c2 & c3 & c4)]]; try lia.
 Qed.
+
+Lemma recv_accept_needs j m a x x' p inst : recv_out j m a x x' p inst ->
+  r_type m = RPre -> p_acc p = true -> p_real p = true -> can_accept (n_cs x) = true \/ n_tpc x = true.
+Proof.
+  intros Hout Ht Ha Hr.
+  destruct Hout as [| |xs ? ? ? ? Hl ?| | | | |]; sxs; cbn in *; try discriminate; try congruence; auto.
+  destruct Hl as (l1 & _). auto.
+Qed.
+
+(* two different proposers cannot both hold a node closed for the same version unless that version is decided *)
+Lemma closed_twice x w1 w2 k : closed x w1 k -> closed x w2 k -> w1 <> w2 -> k <= n_ver x \/ k < a_ver (n_acc x).
+Proof.
+  intros [H1|[H1|(a1 & a2 & a3 & a4)]] [H2|[H2|(b1 & b2 & b3 & b4)]] Hw; auto. congruence.
+Qed.
+
+Lemma recv_cs_inst j m a x x' p inst : recv_out j m a x x' p inst ->
+  inst = true -> n_cs x' = NotCS \/ n_cs x' = AcceptedNew.
+Proof.
+  intros Hout. destruct Hout; sxs; cbn; try discriminate. intros _.
+  rewrite accept_new_cs. cbn. destruct (n_cs x); auto.
+Qed.
+
+Lemma recv_secver j m a x x' p inst : recv_out j m a x x' p inst -> n_secver x' = n_secver x.
+Proof. intros Hout. destruct Hout; sxs; cbn; try rewrite accept_new_secver; auto. Qed.
